@@ -354,7 +354,14 @@ func (s *server) DropRowRange(ctx context.Context, req *btapb.DropRowRangeReques
 	tbl.mu.Lock()
 	defer tbl.mu.Unlock()
 	if req.GetDeleteAllDataFromTable() {
-		tbl.rows.Clear()
+		// Clear destroys and re-creates the table's storage in place. Only the registered
+		// table may do that: after DeleteTable (and a CreateTable of the same name) the
+		// storage location belongs to the new table.
+		s.mu.Lock()
+		if s.tables[req.Name] == tbl {
+			tbl.rows.Clear()
+		}
+		s.mu.Unlock()
 	} else {
 		// Delete rows by prefix.
 		prefixBytes := req.GetRowKeyPrefix()
